@@ -1550,7 +1550,9 @@ func (c *Conn) AvailableStreams() int {
 
 func (c *Conn) UseKeyspace(keyspace string) error {
 	q := &writeQueryFrame{statement: `USE "` + keyspace + `"`}
+	c.session.mu.RLock()
 	q.params.consistency = c.session.cons
+	c.session.mu.RUnlock()
 
 	framer, err := c.exec(c.ctx, q, nil)
 	if err != nil {
